@@ -9,7 +9,7 @@ import jax
 import jax.numpy as jnp
 import numpy as np
 
-from genjax.pjax import wrap_sampler, modular_vmap, seed
+from genjax.pjax import wrap_sampler, modular_vmap, seed, sample_binder
 
 
 def _bits(key, sample_shape=()):
@@ -17,6 +17,18 @@ def _bits(key, sample_shape=()):
 
 
 bits_site = wrap_sampler(_bits, name="bits")
+
+
+def _bits_param(key, p, sample_shape=()):
+    return jax.random.bits(key, tuple(sample_shape) + jnp.shape(p) + (2,), dtype=jnp.uint32)
+
+
+# ONE long-lived sampling primitive (the documented `sample_binder` idiom) shared by every site of every program built with
+# v_mode="shared_param": scalar sites pass a scalar parameter, vector sites a parameter of shape (n,). Its results must not depend
+# on which shapes it was used with before (C06: nothing but key and arguments).
+shared_site = sample_binder(_bits_param, name="bits_shared")
+# the wrap_sampler idiom of the library's own distributions, parameter passed by KEYWORD (v_mode="wrapped_kw")
+wrapped_site = wrap_sampler(_bits_param, name="bits_wrapped")
 
 
 def pos(n_remaining):
@@ -91,9 +103,22 @@ def build(prog, v_mode="modular_vmap"):
             here = path + (pos(len(p) - i),)
             k = s["k"]
             if k == "S":
-                rows.append(bits_site()[None, :])
+                if v_mode == "shared_param":
+                    rows.append(shared_site(jnp.zeros(()))[None, :])
+                elif v_mode == "shared_kw":
+                    rows.append(shared_site(p=jnp.zeros(()))[None, :])
+                elif v_mode == "wrapped_kw":
+                    rows.append(wrapped_site(p=jnp.zeros(()))[None, :])
+                else:
+                    rows.append(bits_site()[None, :])
             elif k == "V":
-                if v_mode == "modular_vmap":
+                if v_mode == "shared_param":
+                    rows.append(shared_site(jnp.zeros((s["n"],))))
+                elif v_mode == "shared_kw":
+                    rows.append(shared_site(p=jnp.zeros((s["n"],))))
+                elif v_mode == "wrapped_kw":
+                    rows.append(wrapped_site(p=jnp.zeros((s["n"],))))
+                elif v_mode == "modular_vmap":
                     rows.append(modular_vmap(lambda: bits_site(), axis_size=s["n"])())
                 else:
                     rows.append(bits_site(sample_shape=(s["n"],)))
